@@ -4,13 +4,17 @@ use crate::catalogue;
 use crate::modeled::{hex, hex_or_dash, val_string, Modeled, G};
 use crate::rng::Rng;
 use crate::Ctx;
-use parity_scale_codec::{Compact, CompactLen, Decode, Encode};
+use parity_scale_codec::{Compact, CompactLen, Decode, DecodeAll, DecodeLimit, Encode};
 use std::panic::{catch_unwind, AssertUnwindSafe};
 
 pub fn run_stream(ctx: &mut Ctx, name: &str) {
 	match name {
 		"compact" => compact_stream(ctx),
-		"enc" | "rt" | "mut" | "rand" | "exh" => catalogue::run_all(ctx, name),
+		"enc" | "rt" | "mut" | "rand" | "exh" | "cut" | "decall" => catalogue::run_all(ctx, name),
+		"concat" => {
+			catalogue::run_all(ctx, "pool");
+			concat_stream(ctx);
+		},
 		"big" => big_stream(ctx),
 		other => panic!("unknown stream {}", other),
 	}
@@ -343,7 +347,46 @@ pub fn mutate(rng: &mut Rng, base: &[u8], other: &[u8], allow_big_counts: bool) 
 	m
 }
 
-pub fn run_type<T: Cat>(ctx: &mut Ctx, stream: &str, name: &str, o: &TypeOpts) {
+fn dec_for_pool<T: Cat>(bs: &[u8]) -> (String, Option<usize>) {
+	let (ans, dv) = dec_answer::<T>(bs);
+	(ans, dv.map(|(_, rem)| rem))
+}
+
+fn concat_stream(ctx: &mut Ctx) {
+	let pool = std::mem::take(&mut ctx.pool);
+	let mut rng = Rng::new(ctx.seed ^ 0xC0CA7);
+	let n_seq = if ctx.tier_thorough { 3000 } else { 300 };
+	for _ in 0..n_seq {
+		let wide = rng.chance(1, 10);
+		let k = 2 + rng.below(if wide { 49 } else { 6 }) as usize;
+		let picks: Vec<usize> = (0..k).map(|_| rng.below(pool.len() as u64) as usize).collect();
+		let mut all = Vec::new();
+		for &i in &picks {
+			all.extend_from_slice(&pool[i].bytes);
+		}
+		for _ in 0..rng.below(3) {
+			all.push(rng.below(256) as u8);
+		}
+		let mut off = 0usize;
+		for &i in &picks {
+			let e = &pool[i];
+			let rest = &all[off..];
+			let (ans, rem) = (e.dec)(rest);
+			ctx.emit("concat", e.name, &format!("dec {} {}", (e.ty)(rest.len() + 1), hex_or_dash(rest)), &ans);
+			// oracle (C14): each value is recovered in order, consuming exactly its own encoding
+			let expect = format!("ok {} {}", e.val, rest.len() - e.bytes.len());
+			if ans != expect {
+				ctx.oracle_fail("C14", format!("concatenation: {} at offset {} of {}: got {} expected {}", e.name, off, hex(&all), &ans[..ans.len().min(80)], &expect[..expect.len().min(80)]));
+			}
+			match rem {
+				Some(r) => off = all.len() - r,
+				None => break,
+			}
+		}
+	}
+}
+
+pub fn run_type<T: Cat + DecodeAll + DecodeLimit>(ctx: &mut Ctx, stream: &str, name: &'static str, o: &TypeOpts) {
 	let thorough = ctx.tier_thorough;
 	let tyseed = name.bytes().fold(ctx.seed, |a, b| a.wrapping_mul(31).wrapping_add(b as u64));
 	let mut g = G::new(tyseed ^ 0xE1C0DE, o.budget);
@@ -416,6 +459,75 @@ pub fn run_type<T: Cat>(ctx: &mut Ctx, stream: &str, name: &str, o: &TypeOpts) {
 				}
 				let (ans, _) = dec_answer::<T>(&s);
 				ctx.emit("rand", name, &format!("dec {} {}", T::ty(s.len() + 1), hex_or_dash(&s)), &ans);
+			}
+		},
+		"pool" => {
+			for _ in 0..3 {
+				g.budget = o.budget.min(8);
+				let v = T::gen(&mut g);
+				ctx.pool.push(crate::PoolEntry { name, ty: T::ty, bytes: v.encode(), val: val_string(&v, true), dec: dec_for_pool::<T> });
+			}
+		},
+		"cut" => {
+			for _ in 0..(n_vals / 10).max(3) {
+				g.budget = o.budget;
+				let v = T::gen(&mut g);
+				let bs = v.encode();
+				let n = bs.len();
+				for i in 0..n {
+					if n > 48 && i > 16 && i + 16 < n && !g.rng.chance(1, 8) {
+						continue;
+					}
+					let cut = &bs[..i];
+					let (ans, _) = dec_answer::<T>(cut);
+					ctx.emit("cut", name, &format!("dec {} {}", T::ty(cut.len() + 1), hex_or_dash(cut)), &ans);
+					// oracle (C14): a strict prefix of an encoding never decodes
+					if ans != "err" {
+						ctx.oracle_fail("C14", format!("{}: strict prefix {} of {} decoded: {}", name, hex_or_dash(cut), hex(&bs), &ans[..ans.len().min(60)]));
+					}
+				}
+			}
+		},
+		"decall" => {
+			for _ in 0..n_vals {
+				g.budget = o.budget;
+				let v = T::gen(&mut g);
+				g.budget = o.budget;
+				let w = T::gen(&mut g);
+				let mut bs = v.encode();
+				match g.rng.below(4) {
+					0 => {},
+					1 => bs.push(g.rng.below(256) as u8),
+					2 => bs = mutate(&mut g.rng, &bs, &w.encode(), !o.zero_width_elems),
+					_ => bs.extend_from_slice(&w.encode()),
+				}
+				let (dans, dv) = dec_answer::<T>(&bs);
+				let all = catch_unwind(AssertUnwindSafe(|| T::decode_all(&mut &bs[..])));
+				let ans = match all {
+					Ok(Ok(x)) => format!("ok {}", val_string(&x, true)),
+					Ok(Err(_)) => "err".into(),
+					Err(_) => "panic".into(),
+				};
+				ctx.emit("decall", name, &format!("decall {} {}", T::ty(bs.len() + 1), hex_or_dash(&bs)), &ans);
+				// oracle (C14): decode_all succeeds iff decode succeeds with nothing left, same value
+				let expect = match &dv {
+					Some((x, 0)) => format!("ok {}", val_string(x, true)),
+					_ => if dans == "panic" { "panic".into() } else { "err".into() },
+				};
+				if ans != expect {
+					ctx.oracle_fail("C14", format!("{}: decode_all({}) = {} but decode gives {}", name, hex_or_dash(&bs), &ans[..ans.len().min(60)], &dans[..dans.len().min(60)]));
+				}
+				let limit = 64u32;
+				let lall = catch_unwind(AssertUnwindSafe(|| T::decode_all_with_depth_limit(limit, &mut &bs[..])));
+				let lans = match lall {
+					Ok(Ok(x)) => format!("ok {}", val_string(&x, true)),
+					Ok(Err(_)) => "err".into(),
+					Err(_) => "panic".into(),
+				};
+				ctx.emit("decall", name, &format!("limall {} {} {}", limit, T::ty(bs.len() + 1), hex_or_dash(&bs)), &lans);
+				if lans != expect {
+					ctx.oracle_fail("C14", format!("{}: decode_all_with_depth_limit(64, {}) = {} but decode gives {}", name, hex_or_dash(&bs), &lans[..lans.len().min(60)], &dans[..dans.len().min(60)]));
+				}
 			}
 		},
 		"exh" => {
